@@ -256,12 +256,23 @@ func (m *StakeMon) BeforeTx(s *Sim, name string, msg sdk.Msg) {
 		m.selfStakeKnown = map[string]string{}
 	}
 	m.before = m.snapshot(s)
-	// classify *before* the tx: is any vault already unbalanced?
-	m.preUnbalanced = map[string]string{}
+	m.trackVaults(s)
+}
+
+// trackVaults fixes the class of a vault's imbalance when it first appears (right after the block in which a
+// slash rebalancing failed) and keeps it until the vault is balanced again.
+func (m *StakeMon) trackVaults(s *Sim) {
+	if m.preUnbalanced == nil {
+		m.preUnbalanced = map[string]string{}
+	}
 	mds, _ := s.TS.Keepers.Epochstorage.GetAllMetadata(s.TS.Ctx)
 	for _, md := range mds {
-		if unb, why := vaultUnbalanced(s, md.Vault); unb {
+		unb, why := vaultUnbalanced(s, md.Vault)
+		switch {
+		case unb && m.preUnbalanced[md.Provider] == "":
 			m.preUnbalanced[md.Provider] = why
+		case !unb:
+			delete(m.preUnbalanced, md.Provider)
 		}
 	}
 }
@@ -422,6 +433,7 @@ func (m *StakeMon) AfterTx(s *Sim, r *TxRes) {
 
 func (m *StakeMon) AfterBlock(s *Sim, b *BlockRes) {
 	if b.Panic == "" {
+		m.trackVaults(s)
 		m.structural(s, fmt.Sprintf("after block %d", b.Height), b.Step)
 	}
 }
